@@ -12,6 +12,8 @@ Definition grp := nat.            (* 0 = no group *)
    20 an interface nobody implements, 50 struct{} (void constructors),
    100/101/102 context.Context / godi.Scope / godi.Provider *)
 Definition T_VOID : ty := 50.
+(* as the dynamic type of an output of a multi-output constructor: the constructor leaves that output nil *)
+Definition T_NILOUT : ty := 997.
 Definition T_CTX : ty := 100.
 Definition T_SCOPE : ty := 101.
 Definition T_PROV : ty := 102.
